@@ -107,7 +107,7 @@ PROPS = {
         explanation="history invariant with a FIFO model per member: every assignment seen in request_signature events must be the "
                     "member's oldest queued pair, never assigned before, registered by that member, member active and queue non-empty; "
                     "after every block the on-chain queue must be an order-preserving subsequence of the model queue (nothing reset, "
-                    "assigned, reordered or resurrected), never above MaxDESize; over-limit submissions must be rejected",
+                    "assigned, reordered or resurrected), never above MaxDESize; over-limit submissions must be rejected; Genesis stage also: the exported document with max_de_size edited to the longest exported queue is imported, edited to 1-2 below it is refused (validate-genesis + InitChain of a new instance)",
         assumptions=["signing sources generated: direct requests and oracle results; tunnel and transition sources are exercised by C08/C18",
                      "a pair that disappears without being assigned is counted (lost_unassigned), not flagged: the statement is about reuse"],
         nt_floor=0.02,
@@ -168,7 +168,9 @@ PROPS = {
              "limit exact / one denom -1 / +1 / zero / big / first denom only / one denom dropped, a poor payer funded exactly, one short, or only for the "
              "first k-1 sources, MsgEditDataSource by the owner (or somebody else) moving a source's treasury to another account and keeping or replacing its fee (the fee model follows accepted messages, not the stored record); non-trivial = a request at a limit boundary or a balance running out midway. Signing: TSS history (see C05) with fee_per_signer in {0, 10uband, 7uband, 3uband+2uatom}, fee limits enough/exact/one-less/zero/"
              "one-denom-only, a poor requester; non-trivial = a request at an exact limit boundary or a payout after a retry. Tunnel: the C08 tunnel histories, where TSS-route tunnels make paid signing requests from the end blocker (members running out of nonces or deactivated, fee payers funded exactly / one short); only the money checks are evaluated; non-trivial = >=1 refused send; distinct = hash of case JSON",
-        explanation="bank-balance accounting model: expected balance of every member, requester and the bandtss module account is updated "
+        explanation="Transition: the C18 group-transition histories (requests made while a transition is pending create a signing of the current AND of the incoming group; the last request's signings may be signed only after the transition record is gone), only the money checks count: "
+                    "a request pays fee_per_signer x current threshold within its limit, only assignees of the current group's completed signing are paid, the incoming group's signature is never paid; non-trivial there = paid history in which an incoming-group signing completed. "
+                    "bank-balance accounting model: expected balance of every member, requester and the bandtss module account is updated "
                     "from the statement (escrow fee_per_signer x threshold on an accepted request, pay fee_per_signer to each assignee of the "
                     "successful current-group attempt, nothing on failure) and compared with the bank after every block; charged fee within "
                     "the caller's limit per denom; escrow >= outstanding obligations",
@@ -197,8 +199,12 @@ PROPS = {
         rule="case = 2-4 accounts, 2-3 rate-1 validators (in half of the cases the smallest one starts Unbonded outside the active set and may swap places with another one), genesis export/import round trips, genesis AllowedDenoms in {[uband],[uband,uatom],[],[uatom]} (governance may later set any of these or [uband,uband], a list naming a denom twice, which must either be refused or count the denom once), and 20-60 late-bound ops "
              "(stake/unstake multi-denom, delegate/undelegate/redelegate/full removal, lock updates from vaults feeds (real MsgVote) / feedsx / tunnel / a "
              "(keeper level), vault deactivation, allowed-denom change through gov, re-locks relative to the vault's old lock after such a change: old-1/old/old+1/mid/power+1) with amounts at lock-1/lock/lock+1, 0, 2^63, 2^64-1; non-trivial = "
-             "an account with >=2 active vaults of different locks AND a withdrawal rejected while leaving exactly maxLock-1; distinct = hash of case JSON",
-        explanation="big.Int model of total power and locks: successful withdrawal => total power >= largest active lock; rejected op => full snapshot "
+             "an account with >=2 active vaults of different locks AND a withdrawal rejected while leaving exactly maxLock-1; distinct = hash of case JSON. "
+             "Liquid: a chain started from a genesis that gives a 32-byte (module-derived / interchain-account style) address - or, as control, a 20-byte one - a lock of 1..5,000,000 in an active or inactive vault "
+             "(no message can create such a lock, restake genesis validation accepts it); the account's staking messages are run the way the ICA host runs them (staking MsgServer on a cache branch, written on success): "
+             "4-16 delegate / undelegate (exactly down to the lock, one unit below, whole delegation, one unit, drawn) / redelegate / vault deactivation / block ops over 2 validators; non-trivial = 32-byte account with >=1 undelegation refused by the lock and >=1 accepted",
+        explanation="Liquid: an accepted undelegation or delegation removal under an active vault leaves the delegated total >= the lock (one direction only, as stated); the imported lock stays in the store. "
+                    "big.Int model of total power and locks: successful withdrawal => total power >= largest active lock; rejected op => full snapshot "
                     "(restake stores, delegations, unbondings, balances) unchanged; SetLockedPower succeeds => power <= total and vault active; "
                     "deactivated vault never active again and never constrains; by-power index == one entry per lock; module balance == sum of stakes",
         assumptions=["no slashing; validators stay bonded at rate 1 (checked every step)", "vaults other than feeds are driven at keeper level in a cache context"],
